@@ -109,6 +109,15 @@ def judge(prog: Any, ref: Any, run: dict[str, Any], info: dict[str, Any]) -> lis
                 problems.append(("execution-count-differs", f"task executions (sweep-free, with sweeps): {diff}", "exec-count"))
     for x in check_ledger_unique(run["h"], "C10"):
         problems.append(("step-executed-twice", x["msg"], "dup-exec"))
+    if info.get("engine") != "W":
+        # (with interleaved workers the sweep's check and push are not atomic - KF-C10-sweep-races-with-planning; a sweep
+        # that runs between two deliveries of a single worker has no such excuse)
+        from sim.oracles import recovery_duplicates
+
+        for x in recovery_duplicates(run["h"])[:1]:
+            problems.append(("sweep-duplicated-pending-message",
+                             f"the sweep queued {x['queued']} for task {x['task']} although a live {x['already']} message for it was already "
+                             f"queued: a second chain of executions for one task", "dup-message"))
     return one_violation("C10", problems, run["h"], ref["h"] if ref else None)
 
 
@@ -129,7 +138,8 @@ def judge_crash(prog: Any, ref: Any, run: dict[str, Any], info: dict[str, Any]) 
              for k in set(a["stages"]) | set(b["stages"]) if k.split("/")[0] not in status_racy
              and (a["stages"].get(k) or {}).get("status") != (b["stages"].get(k) or {}).get("status")}
         if d:
-            problems.append(("sweep-twice-differs", f"stage statuses (one sweep, two sweeps): {d}", "twice:stages"))
+            kinds = ",".join(sorted({f"{x}->{y}" for x, y in d.values()}))
+            problems.append(("sweep-twice-differs", f"stage statuses (one sweep, two sweeps): {d}", "twice:stages:" + kinds))
         dd = {t: (run["counts"].get(t, 0), two["counts"].get(t, 0)) for t in set(run["counts"]) | set(two["counts"])
               if run["counts"].get(t, 0) != two["counts"].get(t, 0) and task_kind(prog, t) not in ("poller", "transient")
               and _stage_of(prog, t) not in count_racy(prog)}
